@@ -23,7 +23,7 @@ DTYPES = ['int32', 'int64', 'int8', 'uint8', 'float32', 'bool', 'float64', 'int1
 
 
 def plan(tier):
-    n, per = (12, 600) if tier == 'quick' else (16, 12000)
+    n, per = (12, 1800) if tier == 'quick' else (16, 12000)
     of = 8
     return [{'kind': 'deals', 'n': per} for _ in range(n)] + [{'kind': 'random_dealer', 'n': 300 if tier == 'quick' else 20000}] + \
         [{'kind': 'concurrent', 'bound': 1, 'shard': i, 'of': of} for i in range(of)]
